@@ -122,8 +122,15 @@ def body(case):
             elif ctor == "uniform-fixed":
                 g = S.CTMCUniformGrid.create_from_fixed_nb_of_points(h=h, nb_of_points=case["n"], dimension=d)
             elif ctor == "geometric":
-                g = S.CTMCGridGeometric(h=h, model=model, nb_of_points_on_each_side=case["k"],
-                                        truncation_probability=case["p"])
+                try:
+                    g = S.CTMCGridGeometric(h=h, model=model, nb_of_points_on_each_side=case["k"],
+                                            truncation_probability=case["p"])
+                except ValueError as e:
+                    # weakly damped margins: the bound lies beyond the root search's bracket [-100, 100] and the solver
+                    # refuses (f(a) and f(b) of one sign) - a rejection, not a grid
+                    if case.get("heavy_tails") and "sign" in str(e):
+                        return [Violation("REJECTED", f"truncation bound outside the solver's bracket: {e}")]
+                    raise
             elif ctor == "geometric-bounds":
                 sc = min(model_scale(m) for m in case["margins"])
                 bounds = (-max(case["l_rel"] * sc, 2.5 * h), max(case["r_rel"] * sc, 2.5 * h))
@@ -351,7 +358,75 @@ def classify(case):
     return labels, nt
 
 
+# ------------------------------------------------------------------------------------ the step written as an integer
+@st.composite
+def strat_int_step(draw, tier):
+    return {"ctor": draw(st.sampled_from(["uniform", "uniform-fixed", "geometric", "geometric-bounds", "probstep", "credit"])),
+            "h": draw(st.sampled_from([1, 2])), "sigma_j": draw(_f(2.0, 6.0)), "intensity": draw(_f(0.5, 8.0)),
+            "mu_j": draw(st.sampled_from([0.0, 0.5])), "d": draw(st.sampled_from([1, 1, 2])),
+            "k": draw(st.integers(2, 6)), "n": draw(st.integers(4, 30)), "refines": draw(st.integers(0, 2))}
+
+
+def body_int_step(case):
+    """a model whose jumps are of the size of several units, a spatial step of 1 or 2 written as a python integer: the grid
+    is the one built with the same step written as a float"""
+    from rpylib.grid import spatial as S
+
+    spec = {"family": "merton", "exp": None,
+            "params": {"sigma": 0.0, "mu_j": case["mu_j"], "sigma_j": case["sigma_j"], "intensity": case["intensity"]}}
+    d, ctor = case["d"], case["ctor"]
+    if ctor == "probstep":
+        d = 1
+
+    def model():
+        return build_model(spec) if d == 1 else build_copula_model({"margins": [spec] * d, "copula": {"type": "independent"}})
+
+    def make(h):
+        if ctor == "uniform":
+            return S.CTMCUniformGrid(h=h, model=model(), truncation_probability=0.999)
+        if ctor == "uniform-fixed":
+            return S.CTMCUniformGrid.create_from_fixed_nb_of_points(h=h, nb_of_points=case["n"], dimension=d)
+        if ctor == "geometric":
+            return S.CTMCGridGeometric(h=h, model=model(), nb_of_points_on_each_side=case["k"], truncation_probability=0.999)
+        if ctor == "geometric-bounds":
+            return S.CTMCGridGeometric.create_with_bounds(h=h, truncations=(-7.0 * case["sigma_j"], 9.0 * case["sigma_j"]),
+                                                          dimension=d, nb_of_points_on_each_side=case["k"])
+        if ctor == "probstep":
+            return S.CTMCGridProbabilityStep(h=h, model=model(), minimum_probability_step=0.07)
+        lv = -2.5 * case["sigma_j"]
+        return S.CTMCCredit(h=h, level_a=lv if d == 1 else [lv] * d, model=model(), symmetric_grid=False)
+
+    tag = f"C13/{ctor}/d{d}/integer-step"
+    detail = f"case={case}"
+    gi, gf = make(int(case["h"])), make(float(case["h"]))
+    out = []
+    for step in range(case["refines"] + 1):
+        for k_, (ai, af) in enumerate(zip(gi.axes, gf.axes)):
+            ai, af = np.asarray(ai), np.asarray(af)
+            if ai.dtype.kind != "f" or ai.shape != af.shape or not np.array_equal(ai, af):
+                out.append(Violation(f"{tag}/grid-differs-from-the-one-built-with-a-float-step",
+                                     f"after {step} refinements, axis {k_}: dtype {ai.dtype}, {ai[:8].tolist()}... vs "
+                                     f"{af[:8].tolist()}...; {detail}"))
+                return out
+        if float(gi.h) != float(gf.h) or gi.origin_coordinate != gf.origin_coordinate:
+            out.append(Violation(f"{tag}/h-or-origin-differs", f"after {step} refinements: h {gi.h!r} / {gf.h!r}; {detail}"))
+            return out
+        if step < case["refines"]:
+            gi.refine()
+            gf.refine()
+    return out
+
+
+def classify_int_step(case):
+    return [case["ctor"], f"d={case['d']}", f"h={case['h']}"], True
+
+
 SUBCHECKS = [
+    SubCheck("integer-step", body_int_step, classify_int_step,
+             rule="every model-based and model-free constructor with a step of 1 or 2 written as a python integer (Merton "
+                  "jumps of several units, d = 1, 2): axes, h and origin equal those of the grid built with the float step, "
+                  "also after 0..2 refinements",
+             strategy=strat_int_step, budget={"quick": 240, "thorough": 1200}, shards={"quick": 16, "thorough": 16}),
     SubCheck("construct-and-refine", body, classify,
              rule="constructor in {uniform, fixed-size, geometric, geometric-with-bounds, probability-step, "
                   "credit} x d in 1..3 (copula models for d>=2) x model parameters x h x 0..3(4) refinements; "
